@@ -66,6 +66,21 @@ def prove(assumptions, goal, timeout_ms=None, use_cvc5=True, cross_check=False, 
            "verdict": Verdict.UNKNOWN}
     # portfolio: plain SMT core first (fast and stable on the row-wise kernel VCs), then the
     # grounded + UF-abstracted query on nlsat (complete for QF_NRA), then the default tactic
+    try:
+        rel = relevant(assumptions, goal)
+    except Exception:  # noqa
+        rel = None
+    if rel is not None and len(rel) < len(flatten(assumptions)):
+        s0 = z3.SimpleSolver()
+        s0.set("timeout", min(timeout_ms, 4000))
+        for a in rel:
+            s0.add(a)
+        s0.add(z3.Not(goal))
+        if s0.check() == z3.unsat:
+            out["verdict"] = Verdict.PROVED
+            out["backend"] = "z3-%s (smt-core, cone of influence)" % z3.get_version_string()
+            out["seconds"] = time.time() - t0
+            return _finish(out, assumptions, goal, use_cvc5, cross_check)
     stages = [("smt-core", z3.SimpleSolver, min(timeout_ms, 6000)),
               ("abstracted", None, min(timeout_ms, 10000)),
               ("default", z3.Solver, timeout_ms),
@@ -95,6 +110,10 @@ def prove(assumptions, goal, timeout_ms=None, use_cvc5=True, cross_check=False, 
             break
         out["reason"] = s.reason_unknown()
     out["seconds"] = time.time() - t0
+    return _finish(out, assumptions, goal, use_cvc5, cross_check)
+
+
+def _finish(out, assumptions, goal, use_cvc5, cross_check):
     if (out["verdict"] == Verdict.UNKNOWN and use_cvc5) or cross_check:
         try:
             res, secs = run_cvc5(_smt2(assumptions, goal))
@@ -240,6 +259,63 @@ def abstract_ufs(formulas):
         cache[i] = r
         return r
     return [ab(f) for f in formulas]
+
+
+def _symbols(t, cache):
+    i = t.get_id()
+    if i in cache:
+        return cache[i][1]
+    out = set()
+    stack = [t]
+    seen = set()
+    while stack:
+        x = stack.pop()
+        xi = x.get_id()
+        if xi in seen:
+            continue
+        seen.add(xi)
+        if z3.is_quantifier(x):
+            stack.append(x.body())
+            continue
+        if z3.is_app(x):
+            d = x.decl()
+            if d.kind() == z3.Z3_OP_UNINTERPRETED:
+                out.add(d.name())
+            stack.extend(x.children())
+    cache[i] = (t, out)
+    return out
+
+
+def flatten(assumptions):
+    out = []
+    stack = list(assumptions)
+    while stack:
+        a = stack.pop()
+        if z3.is_and(a):
+            stack.extend(a.children())
+        else:
+            out.append(a)
+    return out
+
+
+def relevant(assumptions, goal):
+    """cone of influence: the assumptions that share uninterpreted symbols (transitively) with
+    the goal.  Dropping assumptions is sound for proving."""
+    cache = {}
+    flat = flatten(assumptions)
+    syms = [(_symbols(a, cache), a) for a in flat]
+    cur = set(_symbols(goal, cache))
+    keep = [False] * len(flat)
+    changed = True
+    while changed:
+        changed = False
+        for k, (ss, a) in enumerate(syms):
+            if not keep[k] and (ss & cur or not ss):
+                keep[k] = True
+                if not ss <= cur:
+                    cur |= ss
+                    changed = True
+    return [a for k, (ss, a) in enumerate(syms) if keep[k]]
 
 
 def prove_abstracted(assumptions, goal, timeout_ms):
